@@ -33,7 +33,7 @@ macro_rules! obl {
 macro_rules! cov {
     ($cond:expr, $name:literal) => {
         if unsafe { crate::repr::verif_repr::COVERS } {
-            kani::cover!($cond, $name)
+            kani::cover!($cond, $name);
         }
     };
 }
